@@ -677,6 +677,12 @@ func (m *Model) onCallback(ev Event) {
 			}
 			return
 		}
+		if cur == nil && ev.Old != 0 {
+			// an absent (or expired) key comes with the zero value: the value of a dead entry must not leak into the function
+			m.fail("ret", "Compute(%d): the function saw (%d,false); with found=false the old value must be the zero value", ev.Key, ev.Old)
+			m.reclass("expired")
+			return
+		}
 	case OpComputeIfAbsent:
 		if cur != nil {
 			m.fail("ret", "ComputeIfAbsent(%d): the function was invoked although the model holds %s", ev.Key, entStr(cur))
